@@ -35,7 +35,7 @@ def canon_positions(text, le, tab, start=(0, 0, 0)):
             ln, w = ALPHABET[s]
             b += ln
             if s == 'TAB':
-                c += tab - (c % tab)
+                c += (tab - (c % tab)) if tab > 0 else 0     # tab width 0 is outside every quantifier (the library panics there)
             else:
                 c += w
         res.append((b, l, c))
